@@ -232,6 +232,13 @@ func init() {
 				pp.Paths = append(pp.Paths, pc)
 			}
 		}
+		if !pp.Single && r.Chance(0.25) {
+			// two different files whose cleaned paths are the same
+			dir := simrt.Pick(r, []string{"cdir", "sub", "x"})
+			long := strings.Repeat("y", 300)
+			pair := simrt.Pick(r, [][2]string{{"a/b", "a_b"}, {"\xff.txt", "\xfe.txt"}, {long + "1.bin", long + "2.bin"}, {"k\xc3", "k\xe2\x82"}})
+			pp.Paths = append(pp.Paths, []string{q(dir), q(pair[0])}, []string{q(dir), q(pair[1])})
+		}
 		if r.Chance(0.4) {
 			for i := 0; i < r.Range(1, 3); i++ {
 				pp.Tar = append(pp.Tar, q(simrt.Pick(r, []string{"moved", "../escape", "/abs/escape", "a/../../escape2", "..", "./ok", "sub/ok", "../mv2/x", "..\\w", "a/./b", "../../etc/passwd", strings.Repeat("d/", 40) + "deep"})))
